@@ -6,6 +6,7 @@ return); Segment.data / interpreter / string-table reads; address_offsets condit
 section_in_segment against binutils' strict rule by truth-table comparison.
 """
 import ast
+from sa.canon import U
 from sa.world import get_world
 from sa import elfconf, expr, paths, streams, dispatch, literals
 from sa.report import AnalysisError
@@ -74,7 +75,7 @@ def check_section_init(ctx, w):
     prets = [expr.nfs(r.value, expr.FEnv(prop.node)) for r in expr.returns_of(prop.node)]
     ctx.ob('W-SEC', prop.construct, 'returns _compressed', prets == ['_compressed'], got=prets)
     for p in ps:
-        conds = [(expr.cond_str(t, env), pol) for t, pol in p.conds()]
+        conds = [expr.CP(expr.cond_str(t, env), pol) for t, pol in p.conds()]
         if len(conds) != 1 or conds[0][0] != 'T(compressed)':
             raise AnalysisError('W-SEC', f.construct, 'construction branches on %r, expected self.compressed' % conds)
         comp = conds[0][1]
@@ -111,8 +112,8 @@ def check_section_data(ctx, w):
     allp = paths.func_paths(f.node)
     seen = {'nobits': 0, 'zlib': 0, 'plain': 0, 'unknown-compression': 0}
     for p in allp:
-        conds = [(expr.cond_str(t, env), pol) for t, pol in p.conds()]
-        cd = dict(conds)
+        conds = [expr.CP(expr.cond_str(t, env), pol) for t, pol in p.conds()]
+        cd = expr.Facts(conds)
         ops = [tuple(canon(x) if isinstance(x, str) else x for x in o.t()) for o in streams.path_ops(p, env)]
         nob = cd.get(expr.spec_cond("sh_type == 'SHT_NOBITS'"))
         comp = cd.get('T(compressed)')
@@ -131,7 +132,7 @@ def check_section_data(ctx, w):
         if comp and zl:
             szc = cd.get(canon(expr.spec_cond('len(result) != _decompressed_size')))
             if szc is None:
-                szc = dict((canon(k), v) for k, v in conds).get(expr.spec_cond('len(result) != data_size'))
+                szc = expr.Facts((canon(k), v) for k, v in conds).get(expr.spec_cond('len(result) != data_size'))
             if p.end[0] == 'return':
                 seen['zlib'] += 1
                 want = [('seek', 'stream', expr.spec_nf('sh_offset + sizeof(Elf_Chdr)'), 'SEEK_SET'),
@@ -143,11 +144,11 @@ def check_section_data(ctx, w):
                        msg='a compressed return path does not pass the decompressed-size check', got=conds)
                 ctx.ob('E-i', f.construct, 'returns inflated result', expr.nfs(p.end[1], env) == 'result', got=expr.nfs(p.end[1], env))
             elif p.end[0] == 'raise':
-                ok = szc is True and p.end[1] is not None and 'ELFCompressionError' in ast.unparse(p.end[1])
+                ok = szc is True and p.end[1] is not None and 'ELFCompressionError' in U(p.end[1])
                 ctx.ob('R-DOM', f.construct, 'size mismatch raises ELFCompressionError', ok, got=conds)
         elif comp and zl is False:
             seen['unknown-compression'] += 1
-            ok = p.end[0] == 'raise' and p.end[1] is not None and 'ELFCompressionError' in ast.unparse(p.end[1])
+            ok = p.end[0] == 'raise' and p.end[1] is not None and 'ELFCompressionError' in U(p.end[1])
             ctx.ob('E-i', f.construct, 'unknown compression raises', ok, msg='unknown compression type is not rejected')
         elif comp is False:
             seen['plain'] += 1
